@@ -17,7 +17,7 @@ TECHNIQUE = 'matrix enumeration with a dtype/length monitor on every array retur
 RULE = ('cells = raw type x scale kind x mode x raw_timestamps x endian x (non-empty | zero-length); a cell is non-trivial when at '
         'least one read succeeded; distinct = the cell tuple')
 ASSUMPTIONS = ['byte order is not part of dtype equality', 'raw timestamp dtypes are compared as sets of (field, kind, size)']
-REQUIRED = ['long_file_channels', 'memmap_files', 'reads_ok', 'dtype_checked', 'empty_results_checked', 'len_checked']
+REQUIRED = ['short_read_channels', 'long_file_channels', 'memmap_files', 'reads_ok', 'dtype_checked', 'empty_results_checked', 'len_checked']
 EXHAUSTIVE = {'quick': False, 'thorough': False}
 
 KINDS = ['none', 'Linear', 'Polynomial', 'Table', 'Add', 'Subtract', 'RTD', 'Thermistor', 'Thermocouple0', 'Thermocouple1',
@@ -83,6 +83,8 @@ def gen_cases(tier, seed):
         yield {'k': 'graph', 's': seed * 1000003 + i}
     for i in range(2000 if tier == 'thorough' else 24):
         yield {'k': 'long', 's': seed * 1000003 + i}
+    for i in range(400 if tier == 'thorough' else 12):
+        yield {'k': 'short-reads', 's': seed * 1000003 + i}
 
 
 def small_values(p, t, n):
@@ -184,10 +186,60 @@ def long_case(case, ctx):
             tf.close()
 
 
+def short_read_case(case, ctx):
+    """Chunks of tens of kilobytes read through an unbuffered stream that returns at most 4 KiB per call."""
+    from nptdms import TdmsFile
+    from checks.c03 import ShortReadStream
+    rng = random.Random('c14s/%d' % case['s'])
+    n = rng.choice([5000, 20000, 8192])
+    t = rng.choice(['f64', 'i32', 'i16'])
+    inter = rng.random() < 0.4
+    segs = M.build_file(rng, [('g', 'a', t, n, []), ('g', 'b', 'u8', n if inter else 7, [])], nseg=rng.randint(1, 2), nchunks=(rng.randint(1, 2),),
+                        endian=rng.choice('<>'), inter=inter, values_fn=lambda p, tt, k: (np.arange(k) % 200).astype(M.TYPES[tt][1]))
+    blob = M.encode_file(segs)[0]
+    exp = M.Expected(segs)
+    for mode in ('lazy', 'eager'):
+        try:
+            tf = (TdmsFile.open if mode == 'lazy' else TdmsFile.read)(ShortReadStream(blob, 4096))
+        except Exception:
+            ctx.count('reads_raising')
+            continue
+        for ch in [c for g in tf.groups() for c in g.channels()]:
+            ctx.evaluation()
+            cell = ('short-reads', 'none', mode, False, segs[0].endian + ('/interleaved' if inter else ''), ch.name)
+            ln = len(ch)
+            ctx.count('short_read_channels')
+            if ln != exp.length(ch.path):
+                ctx.violation('len/differs-from-file/short-reads', {'cell': cell, 'len(channel)': ln, 'values_in_file': exp.length(ch.path)})
+            for what, fn in (('[:]', lambda: ch[:]), ('read_data()', lambda: ch.read_data()), ('iter', lambda: np.array(list(ch)))):
+                try:
+                    got = fn()
+                except Exception:
+                    ctx.count('reads_raising')
+                    continue
+                judge(ctx, ch, what, got, cell, ln)
+            if mode == 'lazy':
+                try:
+                    total = sum(len(c_[:]) for c_ in ch.data_chunks())
+                    ctx.count('len_checked')
+                    if total != ln:
+                        ctx.violation('len/chunk-stream', {'cell': cell, 'sum': total, 'len': ln})
+                    total = sum(len(fc['g'][ch.name][:]) for fc in tf.data_chunks())
+                    if total != ln:
+                        ctx.violation('len/file-chunk-stream', {'cell': cell, 'sum': total, 'len': ln})
+                except Exception:
+                    ctx.count('reads_raising')
+            ctx.distinct(cell + (n,))
+        if mode == 'lazy':
+            tf.close()
+
+
 def run_case(case, ctx):
     from nptdms import TdmsFile
     if case['k'] == 'long':
         return long_case(case, ctx)
+    if case['k'] == 'short-reads':
+        return short_read_case(case, ctx)
     segs, rng = build(case)
     blob, _, _ = M.encode_file(segs)
     for raw_ts in ((False, True) if (case['k'] == 'cell' and case['t'] == 'ts') else (False,)):
